@@ -29,8 +29,8 @@ def gen_world(rng, stress_ids=False):
             cid = None
             if rng.random() < (0.4 if stress_ids else 0.06):
                 cid = rng.choice([0, 1, 2, 7, 254, 255, rng.randrange(256), rng.randrange(256), rng.choice([256, 300, 1000])] if stress_ids else [7, 50, rng.randrange(250)])
-            comps.append(dict(cfgs=ccfgs, id=cid, name=c))
-        archs.append(dict(cfgs=cfgs, id=aid, name=a, comps=comps))
+            comps.append(dict(cfgs=ccfgs, id=cid, name=c, idfirst=rng.random() < 0.5))
+        archs.append(dict(cfgs=cfgs, id=aid, name=a, comps=comps, idfirst=rng.random() < 0.5))
     return archs
 
 
@@ -47,14 +47,19 @@ def world_preds(archs):
     return seen
 
 
+def attrs_rust(cfgs, idattr, idfirst):
+    """The attributes of one item: its cfg attributes and its id attribute, the id written first or last."""
+    c = cfgs_rust(cfgs)
+    return (idattr + c) if idfirst else (c + idattr)
+
+
 def world_rust(archs):
     out = []
     for a in archs:
-        s = cfgs_rust(a['cfgs'])
-        if a['id'] is not None:
-            s += '#[archetype_id(%d)] ' % a['id']
+        s = attrs_rust(a['cfgs'], '#[archetype_id(%d)] ' % a['id'] if a['id'] is not None else '', a.get('idfirst', False))
         s += 'ecs_archetype!(A%d, %s);' % (a['name'], ', '.join(
-            cfgs_rust(c['cfgs']) + ('#[component_id(%d)] ' % c['id'] if c['id'] is not None else '') + 'C%d' % c['name'] for c in a['comps']))
+            attrs_rust(c['cfgs'], '#[component_id(%d)] ' % c['id'] if c['id'] is not None else '', c.get('idfirst', False)) + 'C%d' % c['name']
+            for c in a['comps']))
         out.append(s)
     return ' '.join(out)
 
